@@ -222,3 +222,52 @@ def h_bulk(c0: int, c1: int, c2: int, c3: int, which: int, i: int, children: boo
                     if dict(ns[j].nsmap).get(k) is None:
                         return "fix_nsmap on n%d: node %d lost its own binding %s" % (i, j, k)
     return ""
+
+
+def h_attach_many(b0: bool, b1: bool, b2: bool, b3: bool, b4: bool, b5: bool, g0: bool, g1: bool, outside: bool) -> str:
+    """
+    post: _ == ""
+    """
+    # a parent with SIX prefixes; the child already binds a symbolic subset of them to its own URI, its child another subset;
+    # after the attach the child sees all six, keeps its own, and nothing outside the attached subtree changes
+    fresh()
+    root = Node("root", id="root")
+    parent = Node("parent", id="parent")
+    sibling = Node("sibling", id="sibling")
+    root.add_child(parent)
+    root.add_child(sibling)
+    for k in range(6):
+        parent.add_namespace("p%d" % k, "u%d" % k)
+    if outside:
+        sibling.add_namespace("p0", "s0")
+    child = Node("child", id="child")
+    grand = Node("grand", id="grand")
+    child.add_child(grand)
+    own = [b0, b1, b2, b3, b4, b5]
+    for k in range(6):
+        if own[k]:
+            child.add_namespace("p%d" % k, "own%d" % k)
+    if g0:
+        grand.add_namespace("p0", "g0")
+    if g1:
+        grand.add_namespace("p5", "g5")
+    before_child = dict(child.nsmap)
+    before_grand = dict(grand.nsmap)
+    before_out = [dict(root.nsmap), dict(parent.nsmap), dict(sibling.nsmap)]
+    parent.add_child(child)
+    want = {}
+    for k in range(6):
+        want["p%d" % k] = before_child.get("p%d" % k, "u%d" % k)
+    if dict(child.nsmap) != want:
+        return "after attach the child sees %r, expected %r (own bindings win, missing ones inherited)" % (dict(child.nsmap), want)
+    for k, v in before_grand.items():
+        if k in before_child and dict(grand.nsmap).get(k) != v:
+            return "descendant lost its own binding %s=%s (now %r)" % (k, v, dict(grand.nsmap).get(k))
+        if dict(grand.nsmap).get(k) not in (v, want.get(k)):
+            return "descendant binds %s to %r" % (k, dict(grand.nsmap).get(k))
+    for k in want:
+        if k not in dict(grand.nsmap):
+            return "descendant does not see inherited prefix %s" % k
+    if [dict(root.nsmap), dict(parent.nsmap), dict(sibling.nsmap)] != before_out:
+        return "attach changed bindings outside the attached subtree"
+    return ""
